@@ -64,3 +64,8 @@ EDITS += [
      "patch": "seeded/C20-dispatch-helper-swallows-valueerror/patch.diff"},
 ]
 
+
+# round 9 (a generalisation that is almost right)
+EDITS += [
+    {'id': 'r9-second-jump-threshold', 'expect': 'fire', 'rule': 'C01.O7', 'edits': [{'file': 'spowtd/classify.py', 'old': 'def classify_interstorms(cursor, data_interval, rising_jump_threshold_mm_h):', 'new': 'def classify_interstorms(cursor, data_interval, rising_jump_threshold_mm_h, mystery_threshold_mm_h=20.0):'}, {'file': 'spowtd/classify.py', 'old': '    is_mystery_jump = get_mystery_jump_mask(is_jump, is_raining)', 'new': '    is_mystery_jump = get_mystery_jump_mask((rates > mystery_threshold_mm_h).astype(bool), is_raining)'}]},
+]
